@@ -310,7 +310,9 @@ contract(
     params={"self": Ref("c17_Writer"), "font": Ref("c17_Font"), "feaFile": Ref(FEAFILE)},
     returns=Ref(NS),
     globals=_GDEF_GLOBALS,
-    modifies=["c17_Writer.context"],
+    # the true frame: the writer gets a new context; the fields below are written on THAT namespace object and on its to-do set
+    # (both created by BaseFeatureWriter.setContext, which this function calls first)
+    modifies=["c17_Writer.context", "c17_NS.gdefTableBlock", "c17_NS.orderedGlyphSet", "c17_NS.openTypeCategories", "c17_NS.ligatureCarets", "c17_TagSet.todo"],
     requires=[
         "self.insertFeatureMarker is None",  # class attribute of GdefFeatureWriter
         _DICT_SURJ,  # python dict well-formedness (see above)
